@@ -905,6 +905,17 @@ impl Property for C15 {
         // "at-limit: OK" and "below: ERR")
         Ok(())
     }
+    /// libFuzzer input: a history of up to 12 calls, one byte per call over the 49-call alphabet
+    fn fuzz_decode(data: &[u8]) -> Option<(&'static str, Case, bool)> {
+        let alpha = alphabet();
+        let calls: Vec<Call> = data.iter().take(12).map(|x| alpha[*x as usize % alpha.len()]).collect();
+        if calls.is_empty() {
+            return None;
+        }
+        let c = Case { calls };
+        let nt = nontrivial(&c);
+        Some(("fuzz-histories", c, nt))
+    }
     fn generate(ctx: &mut Ctx<Self>) {
         let alpha = alphabet();
         let core = core_alphabet();
